@@ -250,8 +250,11 @@ class SimQueue:
             # move (a retry after a time-out that changes nothing is not a step: the thread just stays parked).
             # `impatient` scheduler (oracle-only runs): the others may be arbitrarily slow, so the time-out may strike at
             # any moment the operation cannot be completed at once; the thread then yields to the others.
+            # `timeout_useful` (set by the harness for a particular queue): the caller's reaction to a time-out would make
+            # progress right now — then the time-out may strike although others can still move (real time passes anyway)
+            useful = getattr(self, "timeout_useful", None)
             self.sched.visible(f"{self.name}.put", lambda: not self._full() or self.sched.impatient
-                               or self.sched.nobody_else_enabled())
+                               or (useful is not None and useful()) or self.sched.nobody_else_enabled())
             if self._full():
                 self.sched.record(f"{self.name}.put", "Full")
                 self.sched.timed_out()
